@@ -440,6 +440,24 @@ class Interp:
             if len(s.items) != 1:
                 self.bad(s, 'with statement with several items')
             item = s.items[0]
+            cx = item.context_expr
+            if isinstance(cx, ast.Call) and norm(cx.func) in ('contextlib.suppress', 'suppress') and not cx.keywords and \
+                    all(isinstance(a, (ast.Name, ast.Attribute)) for a in cx.args):
+                # contextlib.suppress(A, B): an exception of one of the classes raised in the body ends the body silently
+                classes = [norm(a) for a in cx.args]
+                if item.optional_vars is not None:
+                    self.assign(item.optional_vars, None, env)
+                try:
+                    self.exec_block(s.body, env)
+                except RaiseSig as sig:
+                    if sig.cls == '<reraise>' or not self.exc_matches(sig.cls, classes):
+                        raise
+                return
+            if isinstance(cx, ast.Call) and norm(cx.func) in ('contextlib.nullcontext', 'nullcontext') and len(cx.args) <= 1 and not cx.keywords:
+                if item.optional_vars is not None:
+                    self.assign(item.optional_vars, self.eval(cx.args[0], env) if cx.args else None, env)
+                self.exec_block(s.body, env)
+                return
             cm = self.eval(item.context_expr, env)
             if isinstance(cm, AGen):
                 # a generator-based context manager (contextlib.contextmanager): run to the yield, bind, run the body, resume for the clean-up
@@ -1594,6 +1612,8 @@ class Interp:
                 return [v[1]]
             if isinstance(v, tuple) and v and v[0] == 'typeof':
                 return [v[1]]
+            if isinstance(v, tuple) and len(v) == 2 and v[0] == 'class' and isinstance(v[1], str):
+                return [v[1]]
             if isinstance(v, tuple):
                 out = []
                 for x in v:
@@ -2340,6 +2360,11 @@ class Interp:
                     pass
                 elif isinstance(v, ARegex) and cls in ('REGEX_TYPE', 're.Pattern', 'datetime.date', 'datetime.datetime', 'date', 'datetime', 'uuid.UUID'):
                     res = res or cls in ('REGEX_TYPE', 're.Pattern')
+                elif cls in ('Exception', 'BaseException') or cls.endswith(('Error', 'Exception', 'Warning')):
+                    pass            # the value is not an exception object (those are handled above): never an instance of an exception class
+                elif cls in DYN_NAMEDTUPLES or self.class_home(cls) is not None:
+                    # a plain class of the repository: only its own instances (no subclassing among the helper classes is modelled)
+                    res = res or (isinstance(v, AObj) and v.cls == cls)
                 else:
                     self.bad(e, f'isinstance class {cls} outside the subset')
             return res
